@@ -280,9 +280,15 @@ func (t *collationSortedTree[K, V]) Prefix(p K) iter.Seq2[K, V] {
 
 	keyS, colKey := t.cok.Transform(p)
 
+	// only the primary weights of p are sure to start the sort key of every
+	// string starting with p; they end at the first level separator
+	if i := bytes.Index(colKey, []byte{0, 0}); i >= 0 {
+		colKey = colKey[:i]
+	}
+
 	root := t.root
 	if t.root.pointer != nil {
-		root = lowestCommonParent[V, *collateLeafNode[V]](root, colKey)
+		root = lowestCommonParent[V, *collateLeafNode[V]](root, colKey, false)
 	}
 
 	hasPrefix := func(k K, v V) bool {
